@@ -92,6 +92,8 @@ class RegWorld:
                 out["t"] = db.GetBaseUnit(a["qt"])
             elif op == "GetUnits":
                 out["s"] = list(db.GetUnits(a["qt"]))
+            elif op == "FindUnitCase":
+                out["t"] = db.FindUnitCase(a["c"], a["u"])
             elif op == "GetQuantityType":
                 out["t"] = db.GetQuantityType(a["u"]) or ""
             elif op == "GetDefaultCategory":
